@@ -388,13 +388,22 @@ func (e *Engine) appendModel(fr *Frame, st *State, s T, tv Val, sT, tT types.Typ
 		e.recStoreIf(st, hn, sb, inplace)
 		e.recStore(st, hn, nb)
 		e.setHeap(st, hn, tIte(inplace, inpl, grown))
-		// forward trigger: a known element of s yields the corresponding element of the result
+		// Old and new elements correspond index by index.  The correspondence is stated with a
+		// pair of index-mapping functions private to this append (fw: index in s's backing store
+		// -> index in the result's, bw its inverse) instead of index arithmetic in the terms: a
+		// forward and a backward axiom written with arithmetic feed each other ever larger index
+		// terms (so+(ro+(k-so)-ro), ...), which the solvers do not normalise; with fw/bw the
+		// round trip bw(fw(k)) = k closes the cycle in the E-graph after one step.
 		nh := e.heap(st, hn, hs)
-		e.assume(st, T{fmt.Sprintf("(forall ((k Int)) (! (=> (and (<= %s k) (< k (+ %s %s))) (= (select (select %s (sbase %s)) (+ (soff %s) (- k %s))) (select (select %s %s) k))) :pattern ((select (select %s %s) k))))",
-			so.S, so.S, n1.S, nh.S, res.S, res.S, so.S, h.S, sb.S, h.S, sb.S), sBool})
-		// backward trigger: an element of the result below the old length is the old element
-		e.assume(st, T{fmt.Sprintf("(forall ((k Int)) (! (=> (and (<= (soff %s) k) (< k (+ (soff %s) %s))) (= (select (select %s (sbase %s)) k) (select (select %s %s) (+ %s (- k (soff %s)))))) :pattern ((select (select %s (sbase %s)) k))))",
-			res.S, res.S, n1.S, nh.S, res.S, h.S, sb.S, so.S, res.S, nh.S, res.S), sBool})
+		e.nfresh++
+		fw, bw := fmt.Sprintf("afw!%d", e.nfresh), fmt.Sprintf("abw!%d", e.nfresh)
+		e.emitDecl(fmt.Sprintf("(declare-fun %s (Int) Int)", fw))
+		e.emitDecl(fmt.Sprintf("(declare-fun %s (Int) Int)", bw))
+		rb, ro := "(sbase "+res.S+")", "(soff "+res.S+")"
+		e.assume(st, T{fmt.Sprintf("(forall ((k Int)) (! (=> (and (<= %s k) (< k (+ %s %s))) (and (= (select (select %s %s) (%s k)) (select (select %s %s) k)) (= (%s k) (+ %s (- k %s))) (= (%s (%s k)) k))) :pattern ((select (select %s %s) k))))",
+			so.S, so.S, n1.S, nh.S, rb, fw, h.S, sb.S, fw, ro, so.S, bw, fw, h.S, sb.S), sBool})
+		e.assume(st, T{fmt.Sprintf("(forall ((k Int)) (! (=> (and (<= %s k) (< k (+ %s %s))) (and (= (select (select %s %s) k) (select (select %s %s) (%s k))) (= (%s k) (+ %s (- k %s))) (= (%s (%s k)) k))) :pattern ((select (select %s %s) k))))",
+			ro, ro, n1.S, nh.S, rb, h.S, sb.S, bw, bw, so.S, ro, fw, bw, nh.S, rb), sBool})
 		return res
 	}
 	// new backing array contents
@@ -783,6 +792,7 @@ func init() {
 		"slices.BinarySearchFunc": modelBinarySearchFunc,
 		"slices.IndexFunc":        modelIndexFunc,
 		"slices.ContainsFunc":     modelContainsFunc,
+		"slices.Contains":         modelSlicesContains,
 		"slices.Equal":            modelSlicesEqual,
 		"sort.Strings":            modelSortInPlace,
 		"sort.Ints":               modelSortInPlace,
@@ -1164,6 +1174,17 @@ func modelContainsFunc(e *Engine, fr *Frame, st *State, fn *ssa.Function, args [
 		return e.callValue(fr, s, args[1], []Val{e.elemAt(s, x, i, et)}, sig, pos).(T)
 	}
 	return e.name(e.quantInt(st, "exists", func(s *State, i T) T { return tAnd(inRange(i, x), f(s, i)) }), "contains")
+}
+
+// slices.Contains(s, v): some element equals v (no effect).
+func modelSlicesContains(e *Engine, fr *Frame, st *State, fn *ssa.Function, args []Val, pos token.Pos) Val {
+	x := args[0].(T)
+	et := sliceElemType(fn.Signature.Params().At(0).Type())
+	if _, isS := isStruct(et); isS {
+		e.unsupported("slices.Contains on struct elements")
+	}
+	v := e.toTerm(args[1], et)
+	return e.name(e.quantInt(st, "exists", func(s *State, i T) T { return tAnd(inRange(i, x), tEq(e.elemAt(s, x, i, et), v)) }), "contains")
 }
 
 // reflect.TypeOf(x): an interface value identifying the dynamic type of x (nil for nil).
